@@ -131,6 +131,8 @@ func mNewbrd(
 
 	bid, err = addBoardRecord(board)
 	if err != nil {
+		// as m_newbrd does: do not leave the directory of a board that was not created behind.
+		_ = os.Remove(dirname)
 		return nil, 0, err
 	}
 
